@@ -18,13 +18,13 @@ impl<'a> Parser<'a> {
     pub fn data(&self) -> &[u8] {
         &self.data[self.offset / 8..]
     }
-    // Verification contract (guard: cfg(kani)): the carrier-independent part of the reader's contract, proved per carrier
+    // Verification contract (guard: cfg(all(kani, rtcm_rs_verif_contracts))): the carrier-independent part of the reader's contract, proved per carrier
     // by /verif/kani harnesses (proof_for_contract) and reused by callers' proofs (stub_verified).
-    #[cfg_attr(kani, kani::requires(len >= 1 && len <= core::mem::size_of::<<IT as BitValue>::ValueType>() * 8
+    #[cfg_attr(all(kani, rtcm_rs_verif_contracts), kani::requires(len >= 1 && len <= core::mem::size_of::<<IT as BitValue>::ValueType>() * 8
         && self.data.len() <= 0x1000_0000 && self.offset <= 0x8000_0000))]
-    #[cfg_attr(kani, kani::ensures(|r| r.is_ok() == (self.data.len() * 8 >= old(self.offset) + len)))]
-    #[cfg_attr(kani, kani::ensures(|r| self.offset == old(self.offset) + if r.is_ok() { len } else { 0 }))]
-    #[cfg_attr(kani, kani::modifies(&self.offset))]
+    #[cfg_attr(all(kani, rtcm_rs_verif_contracts), kani::ensures(|r| r.is_ok() == (self.data.len() * 8 >= old(self.offset) + len)))]
+    #[cfg_attr(all(kani, rtcm_rs_verif_contracts), kani::ensures(|r| self.offset == old(self.offset) + if r.is_ok() { len } else { 0 }))]
+    #[cfg_attr(all(kani, rtcm_rs_verif_contracts), kani::modifies(&self.offset))]
     pub fn parse<IT: BitValue>(
         &mut self,
         len: usize,
